@@ -302,7 +302,10 @@ fn gen_pres(thorough: bool, rng: &mut Rng) -> Result<(), String> {
         let mut sc = random_scenario(&pool, rng, all_true)?;
         // application-chosen short nonces (the API takes any number): 0, 1, a 9-digit value, 2^64, 2^72-1, 2^72
         if k % 6 == 1 {
-            let shorts = ["0", "1", "123456789", "18446744073709551616", "4722366482869645213695", "4722366482869645213696"];
+            // ... and long ones: 2^80, 2^128 - 1, a 256-bit value (every byte of the nonce must be bound)
+            let shorts = ["0", "1", "123456789", "18446744073709551616", "4722366482869645213695", "4722366482869645213696",
+                          "1208925819614629174706176", "340282366920938463463374607431768211455",
+                          "57896044618658097711785492504343953926634992332820282019728792003956564819968"];
             sc.nonce = bn::BigNumber::from_dec(shorts[(k / 6) % shorts.len()]).map_err(|e| e.to_string())?;
         }
         let mut oracles = vec![];
@@ -352,6 +355,12 @@ fn gen_pres(thorough: bool, rng: &mut Rng) -> Result<(), String> {
                 let v2 = verify(&pool, &sc, p, &other);
                 if matches!(v2, Out::Ok(true)) {
                     oracles.push(json!({"name":"other_nonce_rejected","ok":false,"detail":"honest proof accepted under a different nonce"}));
+                }
+                // ... and the neighbouring nonce (differs in the last byte only)
+                if let Ok(plus1) = sc.nonce.increment() {
+                    if matches!(verify(&pool, &sc, p, &plus1), Out::Ok(true)) {
+                        oracles.push(json!({"name":"other_nonce_rejected","ok":false,"detail":format!("honest proof made for nonce {} accepted under nonce + 1", nonce_dec)}));
+                    }
                 }
                 let mut implv = out_bool_json(&v);
                 implv["oracles"] = json!(oracles);
